@@ -12,7 +12,7 @@ CLAIMED = {
     note="bounded: roots D<=3 (4 in thorough), extents 0..3, programs of <=2 (3) operations; trusted: TLC, the replayer's projection (address - data_elements()), g++.",
     ref="DESIGN.md section 5 C01"),
  "C19": dict(
-    text="Same machinery as C01 over roots constructed from explicit index extensions with bases in {-1,0,2} per dimension plus reindexed/blocked: TLC checks that the documented mappings and the code-shaped layout arithmetic agree for re-based roots, and every transition is replayed on the real library (element access, slicing by index, iteration, elements()).",
+    text="Same machinery as C01 over roots constructed from explicit index extensions with bases in {-1,0,2} per dimension plus reindexed/blocked: TLC checks that the documented mappings and the code-shaped layout arithmetic agree for re-based roots, and every transition is replayed on the real library (element access, slicing by index, iteration, elements()); in addition ArrayOps.tla histories over arrays with index bases (construction from index extensions, copy, move, assignment from views, reextent by index extensions with and without fill, reshape, swap) are replayed and extents, index bases and elements compared.",
     note="bounded as C01 (D<=3); index bases of derived views are demanded only where the operation names them (construction, reindexed, blocked).",
     ref="DESIGN.md section 5 C19"),
  "C02": dict(
@@ -52,6 +52,10 @@ CLAIMED = {
     text="specs/AlgGen.tla enumerates view x range kind (begin()/end() with proxy sub-view items, or elements()) x algorithm (all 20 of the property plus copy-from) x argument, prescribing the item cells of each range from the documented view semantics; the replayer runs the real std algorithm on pseudo-random data with duplicates and records the whole storage and the auxiliary range before and after plus the returned position; the TLA+ monitor specs/Algorithms.tla validates every record against the algorithm's contract on independent value sequences (equality for determined algorithms; sorted-prefix/permutation/partition/unique/remove postconditions for the others) and the Frame condition (every cell outside the view unchanged).",
     note="bounded: roots D<=3, extents 0..3, views one operation away (two in thorough), ranges of <= 9 items, values 0..2, 2 data seeds (12 thorough); heap corruption caused by a wild write is attributed to the running case.",
     ref="DESIGN.md section 5 C03", tech="TLC-generated cases executed in the implementation; recorded traces validated by the TLA+ monitor Algorithms.tla"),
+ "C20": dict(
+    text="R1/R2: every program of ViewAlgebra.tla and ArrayOps.tla within the bounds (and thereby what C01/C04/C06 judge) is replayed by three builds of the same replayers (default, -DNDEBUG, -DBOOST_MULTI_ASSERT_DISABLE); the default build must run assertion-free and the three observation records must be identical. R3: specs/Contracts.tla appends to every view program one step outside the documented domain (index just outside / two outside the extension through brackets, through the last bracket of a chain and through call syntax; assignment from an array one longer / one shorter), TLC checks each really is out of domain, and the replayer (assertion-enabled, guarded buffer) must observe a library assertion stopping it.",
+    note="bounded: roots D<=3, extents 0..2/3, programs of <= 2 operations; slicing out of range is not among the promised stops (the 1-D sliced has no assertion) and is not demanded; an out-of-bounds READ that precedes a later assertion would not be seen (writes are, through guard cells).",
+    ref="DESIGN.md section 5 C20"),
 }
 
 props = [json.loads(l) for l in open(os.path.join(V, "properties.jsonl"))]
